@@ -36,6 +36,16 @@ Proof. exact ws_read_unterminated. Qed.
 Print Assumptions C05_unterminated_quote.
 
 (* A backslash with nothing after it quotes nothing: no argument comes of it. *)
+(* ... and a quoted string does not run over the end of its line: a newline before the closing quote is the error, whatever follows
+   (so the text of a quoted piece never holds a newline: XReadSpec.piece_ok) *)
+Theorem C05_quote_within_line : forall chunks l w q s rest,
+  items_ok l = true -> Forall (fun it => nonempty (snd it) = true) l ->
+  forallb piece_ok w = true -> is_quote q = true -> existsb (Nat.eqb q) s = false ->
+  concat chunks = render_items l ++ render_word w ++ q :: s ++ 10 :: rest ->
+  ws_read chunks = Err.
+Proof. exact ws_read_quote_over_newline. Qed.
+Print Assumptions C05_quote_within_line.
+
 Theorem C05_trailing_backslash : forall chunks l,
   items_ok l = true -> Forall (fun it => nonempty (snd it) = true) l ->
   concat chunks = render_items l ++ [92] -> ws_read chunks = Ok (expected l).
